@@ -231,6 +231,33 @@ class Evaluator:
     def lookup_fn(self, path):
         return self.facts.fn(path)
 
+    def _dispatch_trait_method(self, path, recv):
+        """a trait method called through a type parameter (`Roundable::is_exact(x, d)` inside generic code): with a concrete
+        receiver value the implementation is the one for that value's type - the unique impl of the trait for an integer /
+        float / the value's own ADT in the repository's crates"""
+        if "::" not in path or path.startswith("<"):
+            return None
+        trait, method = path.rsplit("::", 1)
+        if not trait.startswith(("temporal_rs::", "temporal_capi::", "temporal_provider::")):
+            return None
+        if isinstance(recv, bool):
+            want = ("bool",)
+        elif isinstance(recv, int):
+            want = tuple(INT_BITS)
+        elif isinstance(recv, float):
+            want = ("f64", "f32")
+        elif isinstance(recv, (V, S)):
+            want = (recv.path, recv.path.rsplit("::", 1)[0])
+        else:
+            return None
+        cands = []
+        for c in self.facts.crates.values():
+            for t in want:
+                f = c.by_path.get("<%s as %s>::%s" % (t, trait, method))
+                if f is not None and f.hir is not None:
+                    cands.append(f)
+        return cands[0] if len(cands) == 1 else None
+
     # pattern matching: returns True / False / None (unknown)
     def bind(self, pat, val, env):
         k = pat["k"]
@@ -413,6 +440,9 @@ class Evaluator:
         return m(n, env)
 
     # ---- expression kinds -------------------------------------------------------
+    def ev___value(self, n, env):
+        return n["v"]
+
     def ev_lit(self, n, env):
         v = self.litval(n["v"])
         return v
@@ -429,6 +459,11 @@ class Evaluator:
                     return cv
                 if res["def"].startswith("core::num::nonzero::NonZero::<") and res["def"].endswith(">::MIN"):
                     return 1
+                if res["def"] in ("num_traits::identities::ConstZero::ZERO", "num_traits::identities::ConstOne::ONE"):
+                    # the associated constant of a numeric type parameter: the same number whatever the instantiation
+                    one = res["def"].endswith("ONE")
+                    ty = n.get("ty")
+                    return (1.0 if one else 0.0) if ty in ("f64", "f32") else (1 if one else 0)
                 # fold the const's own initialiser
                 f = self.lookup_fn(res["def"])
                 if f is not None and f.hir is not None:
@@ -736,6 +771,8 @@ class Evaluator:
             vi = self.variant_index.get(v.path)
             if vi is not None:
                 return vi[1] if vi[1] is not None else vi[0]
+            if v.path.startswith("core::cmp::Ordering::"):
+                return {"Less": -1, "Equal": 0, "Greater": 1}.get(v.path.rsplit("::", 1)[-1], Sym("cast", (v, ty)))
         if isinstance(v, str) and len(v) == 1 and ty in INT_BITS:
             return ord(v)
         return Sym("cast", (v, ty))
@@ -901,7 +938,33 @@ class Evaluator:
             if b["k"] == "path" and "local" in b["res"]:
                 name = b["res"]["local"]
                 env[name] = self._set_field(env.get(name, Sym("local", (name,))), list(reversed(chain)), v)
+            else:
+                self.lossy.append("an assignment through a place the folder does not model")
+        elif a["k"] == "index":
+            self._assign_index(a, v, env)
+        elif a["k"] == "un" and a.get("op") == "*" and a["a"].get("k") == "path" and "local" in a["a"].get("res", {}):
+            env[a["a"]["res"]["local"]] = v          # `*r = v` for a local reference modelled by its referent
+        else:
+            self.lossy.append("an assignment through a place the folder does not model")
         return T(())
+
+    def _assign_index(self, a, v, env):
+        base = a["a"]
+        while base.get("k") in ("addr", "un"):
+            base = base["e"] if base["k"] == "addr" else base["a"]
+        idx = self.ev(a["b"], env)
+        if base.get("k") == "path" and "local" in base.get("res", {}):
+            name = base["res"]["local"]
+            cur = env.get(name)
+            if isinstance(cur, T) and isinstance(idx, int) and not isinstance(idx, bool):
+                if not 0 <= idx < len(cur.items):
+                    raise Panic("index out of bounds", line_of(a))
+                items = list(cur.items)
+                items[idx] = v
+                env[name] = T(tuple(items))
+                return
+            env[name] = Sym("index-assigned", (name,))
+        self.lossy.append("an indexed assignment the folder cannot resolve")
 
     def _set_field(self, base, chain, v):
         if not chain:
@@ -928,6 +991,16 @@ class Evaluator:
             cur = env.get(name, Sym("local", (name,)))
             v = self.ev(n["b"], env)
             env[name] = self.binop(n["op"].rstrip("="), cur, v, a.get("ty"), n)
+        elif a["k"] == "index":
+            cur = self.ev(a, env)
+            v = self.ev(n["b"], env)
+            self._assign_index(a, self.binop(n["op"].rstrip("="), cur, v, a.get("ty"), n), env)
+        elif a["k"] == "field":
+            cur = self.ev(a, env)
+            v = self.ev(n["b"], env)
+            self.ev_assign({"a": a, "b": {"k": "__value", "v": self.binop(n["op"].rstrip("="), cur, v, a.get("ty"), n)}}, env)
+        else:
+            self.lossy.append("a compound assignment through a place the folder does not model")
         return T(())
 
     def ev_index(self, n, env):
@@ -937,6 +1010,16 @@ class Evaluator:
             if 0 <= b < len(a.items):
                 return a.items[b]
             raise Panic("index out of bounds", line_of(n))
+        if isinstance(a, T) and isinstance(b, S) and b.path.startswith("core::ops::range::Range"):
+            kind = b.path.rsplit("::", 1)[-1]
+            st = sfield(b, "start") if kind in ("Range", "RangeFrom", "RangeInclusive") else 0
+            en = sfield(b, "end") if kind in ("Range", "RangeTo", "RangeInclusive", "RangeToInclusive") else len(a.items)
+            if isinstance(st, int) and isinstance(en, int) and not isinstance(st, bool) and not isinstance(en, bool):
+                if kind in ("RangeInclusive", "RangeToInclusive"):
+                    en += 1
+                if not (0 <= st <= en <= len(a.items)):
+                    raise Panic("range index out of bounds", line_of(n))
+                return T(tuple(a.items[st:en]))
         an = n["a"]
         while an.get("k") in ("addr", "un"):
             an = an["e"] if an["k"] == "addr" else an["a"]
@@ -1080,7 +1163,7 @@ class Evaluator:
         for key, st in self.stubs.items():
             # a rule may replace an opaque callee by the outcomes it wants to distinguish (e.g. a lookup that hits / misses)
             if key in target or key in path:
-                r = st(args)
+                r = st(args, env, self) if getattr(st, "wants_env", False) else st(args)
                 if r is not NotImplemented:
                     return r
         b = BUILTINS.get(path) or BUILTINS.get(target)
@@ -1091,6 +1174,8 @@ class Evaluator:
         f = self.lookup_fn(target)
         if f is None and resolved is None:
             f = self.lookup_fn(path)
+        if f is None and args and not has_sym(args[0]):
+            f = self._dispatch_trait_method(target or path, args[0])
         if f is not None and f.hir is not None and (self.inline(f.path) or (not f.reachable and _baseline.is_new(f.path))):
             # callees the rule asked for, and private helpers that did not exist when the rules were written (an
             # extract-function refactoring must not change a verdict)
@@ -1441,6 +1526,14 @@ def _b_default(ev, n, a):
         return False
     if ty and ty.startswith("core::option::Option<"):
         return NONE_V
+    if ty in ("f64", "f32"):
+        return 0.0
+    if ty:
+        # the type's own Default impl (derived impls are exported like any function)
+        for c in ev.facts.crates.values():
+            f = c.by_path.get("<%s as core::default::Default>::default" % ty)
+            if f is not None and f.hir is not None:
+                return ev._call(f, [])
     return NotImplemented
 
 
@@ -1788,6 +1881,10 @@ def _b_numcast(ev, n, a):
         return some(v) if wrap_int(v, t) == v else V(NONE, ())
     if t in ("f64", "f32"):
         return some(float(v))
+    if t and _re.fullmatch(r"[A-Z]\w{0,2}", t):
+        # a numeric type parameter (`<T as NumCast>::from(x)` in generic code): the value itself - the instantiations in
+        # this repository (i128, f64) hold every increment (at most 10^9 x 8.64e13) exactly
+        return some(v) if abs(v) < 2 ** 53 else NotImplemented
     return NotImplemented
 
 
@@ -1881,6 +1978,31 @@ def _b_iter_enumerate(ev, n, a):
     return T(tuple(T((i, it)) for i, it in enumerate(items))) if items is not None else NotImplemented
 
 
+def _b_iter_zip(ev, n, a):
+    x, y = _iter_items(a[0]), _iter_items(a[1])
+    return T(tuple(T((p, q)) for p, q in zip(x, y))) if x is not None and y is not None else NotImplemented
+
+
+def _b_iter_map(ev, n, a):
+    items = _iter_items(a[0])
+    if items is None or not isinstance(a[1], (Closure, Sym)):
+        return NotImplemented
+    out = []
+    for it in items:
+        r = _callable(ev, a[1], [it])
+        if r is None:
+            return NotImplemented
+        out.append(r)
+    return T(tuple(out))
+
+
+def _b_iter_sum(ev, n, a):
+    items = _iter_items(a[0])
+    if items is None or not all(isinstance(v, (int, float)) and not isinstance(v, bool) for v in items):
+        return NotImplemented
+    return sum(items) if items else (0.0 if n.get("ty") in ("f64", "f32") else 0)
+
+
 def _b_iter_rev(ev, n, a):
     items = _iter_items(a[0])
     return T(tuple(reversed(items))) if items is not None else NotImplemented
@@ -1920,6 +2042,7 @@ def _b_str_pred(which):
 
 
 BUILTINS.update({
+    "core::str::<impl str>::as_bytes": lambda ev, n, a: a[0] if isinstance(a[0], str) else NotImplemented,
     "core::str::<impl str>::strip_suffix": _b_strip_suffix,
     "core::str::<impl str>::strip_prefix": _b_strip_prefix,
     "core::str::<impl str>::ends_with": _b_str_pred("ends_with"),
@@ -1932,6 +2055,9 @@ BUILTINS.update({
     "core::iter::traits::iterator::Iterator::all": _b_iter_all,
     "core::iter::traits::iterator::Iterator::find_map": _b_iter_find_map,
     "core::iter::traits::iterator::Iterator::rev": _b_iter_rev,
+    "core::iter::traits::iterator::Iterator::zip": _b_iter_zip,
+    "core::iter::traits::iterator::Iterator::map": _b_iter_map,
+    "core::iter::traits::iterator::Iterator::sum": _b_iter_sum,
     "core::iter::traits::iterator::Iterator::enumerate": _b_iter_enumerate,
     "alloc::vec::Vec::<T, A>::iter": _b_seq_identity,
     "alloc::vec::Vec::<T>::iter": _b_seq_identity,
@@ -1976,6 +2102,52 @@ for _t in INT_BITS:
         BUILTINS["core::num::<impl %s>::checked_%s" % (_t, _op)] = _arith_checked(_op)
         BUILTINS["core::num::<impl %s>::saturating_%s" % (_t, _op)] = _arith_saturating(_op)
 
+
+def _b_euclid(which):
+    def f(ev, n, a):
+        x, y = a
+        if isinstance(x, bool) or isinstance(y, bool) or not isinstance(x, (int, float)) or not isinstance(y, (int, float)):
+            return NotImplemented
+        if y == 0:
+            if isinstance(x, float) or isinstance(y, float):
+                return NotImplemented
+            raise Panic("division by zero")
+        if isinstance(x, float) or isinstance(y, float):
+            import math
+            r = math.fmod(x, y)
+            if r < 0:
+                r += abs(y)
+            q = (x - r) / y
+        else:
+            r = x % abs(y)
+            q = (x - r) // y
+        return {"div": q, "rem": r, "both": T((q, r))}[which]
+    return f
+
+
+BUILTINS.update({
+    "num_traits::ops::euclid::Euclid::div_rem_euclid": _b_euclid("both"),
+    "num_traits::ops::euclid::Euclid::div_euclid": _b_euclid("div"),
+    "num_traits::ops::euclid::Euclid::rem_euclid": _b_euclid("rem"),
+})
+for _n in ("from_i128", "from_i64", "from_u64", "from_u128", "from_f64", "from_i32", "from_u32", "from_usize", "from_u8", "from_i8"):
+    BUILTINS["num_traits::cast::FromPrimitive::" + _n] = _b_numcast
+for _n in ("to_i64", "to_i128", "to_f64", "to_u64", "to_i32", "to_u32", "to_u128", "to_usize", "to_u8", "to_i8", "to_i16", "to_u16"):
+    BUILTINS["num_traits::cast::ToPrimitive::" + _n] = _b_numcast
+
+
+def _b_neg(ev, n, a):
+    v = a[0]
+    if isinstance(v, bool) or not isinstance(v, (int, float)):
+        return NotImplemented
+    t = n.get("ty")
+    if isinstance(v, int) and t in INT_BITS and wrap_int(-v, t) != -v:
+        raise Panic("attempt to negate with overflow")
+    return -v
+
+
+BUILTINS["core::ops::arith::Neg::neg"] = _b_neg
+
 def _f64(fn):
     def f(ev, n, a):
         if isinstance(a[0], (int, float)) and not isinstance(a[0], bool):
@@ -1992,6 +2164,17 @@ for _pre in ("core::f64::<impl f64>::", "std::f64::<impl f64>::"):
     BUILTINS[_pre + "floor"] = _f64(lambda x: float(_math.floor(x)))
     BUILTINS[_pre + "ceil"] = _f64(lambda x: float(_math.ceil(x)))
     BUILTINS[_pre + "abs"] = _f64(abs)
+    BUILTINS[_pre + "signum"] = _f64(lambda x: x if x != x else _math.copysign(1.0, x))
+    BUILTINS[_pre + "round"] = _f64(lambda x: float(_math.floor(abs(x) + 0.5)) * (1.0 if x >= 0 else -1.0) if _math.isfinite(x) else x)
+    BUILTINS[_pre + "fract"] = _f64(lambda x: x - float(_math.trunc(x)) if _math.isfinite(x) else float("nan"))
+    BUILTINS[_pre + "is_sign_negative"] = _f64(lambda x: _math.copysign(1.0, x) < 0)
+    BUILTINS[_pre + "is_sign_positive"] = _f64(lambda x: _math.copysign(1.0, x) > 0)
+    BUILTINS[_pre + "copysign"] = (lambda ev, n, a: _math.copysign(float(a[0]), float(a[1]))
+                                   if all(isinstance(v, (int, float)) and not isinstance(v, bool) for v in a[:2]) else NotImplemented)
+    BUILTINS[_pre + "max"] = (lambda ev, n, a: max(float(a[0]), float(a[1]))
+                              if all(isinstance(v, (int, float)) and not isinstance(v, bool) for v in a[:2]) else NotImplemented)
+    BUILTINS[_pre + "min"] = (lambda ev, n, a: min(float(a[0]), float(a[1]))
+                              if all(isinstance(v, (int, float)) and not isinstance(v, bool) for v in a[:2]) else NotImplemented)
 BUILTINS["core::num::nonzero::NonZero::<T>::get"] = _b_identity
 BUILTINS["core::num::nonzero::NonZero::<T>::new_unchecked"] = _b_identity
 BUILTINS["core::num::nonzero::NonZero::<T>::new"] = _b_nz_new
